@@ -6,6 +6,7 @@ import (
 	"bytes"
 	"context"
 	"fmt"
+	"os"
 	"os/exec"
 	"regexp"
 	"sort"
@@ -110,12 +111,114 @@ func SolveAll(obls []*Obligation, timeoutS int, workers int, seed int, prelude s
 			}
 		}()
 	}
+	// syntactic discharge and grouping of obligations that share a path condition
+	groups := map[string][]int{}
+	var order []string
+	for i, o := range obls {
+		if o.Failed != "" || o.Cover {
+			continue
+		}
+		if syntacticallyTrue(o) {
+			res[i] = &Result{Obl: o, Status: "trivial", Solver: "syntactic (goal is among the assumptions)"}
+			continue
+		}
+		k := pcKey(o.Assume)
+		if _, ok := groups[k]; !ok {
+			order = append(order, k)
+		}
+		groups[k] = append(groups[k], i)
+	}
+	// combined queries first (one per group with more than one member)
+	type gjob struct{ idx []int }
+	gjobs := make(chan gjob)
+	var gwg sync.WaitGroup
+	for w := 0; w < workers; w++ {
+		gwg.Add(1)
+		go func() {
+			defer gwg.Done()
+			for g := range gjobs {
+				mu.Lock()
+				var goals []*Term
+				for _, i := range g.idx {
+					goals = append(goals, obls[i].Goal)
+				}
+				comb := &Obligation{Name: "combined", Assume: obls[g.idx[0]].Assume, Goal: And(goals...)}
+				mu.Unlock()
+				r := solveOne(comb, timeoutS, seed, prelude, &mu, cache)
+				if r.Status == "unsat" || r.Status == "trivial" {
+					for _, i := range g.idx {
+						c := *r
+						c.Obl = obls[i]
+						c.Solver = r.Solver + fmt.Sprintf(" [with %d others on the same path]", len(g.idx)-1)
+						c.Seconds = r.Seconds / float64(len(g.idx))
+						res[i] = &c
+					}
+				}
+			}
+		}()
+	}
+	for _, k := range order {
+		if len(groups[k]) > 1 {
+			gjobs <- gjob{groups[k]}
+		}
+	}
+	close(gjobs)
+	gwg.Wait()
 	for i := range obls {
-		jobs <- job{i}
+		if res[i] == nil {
+			jobs <- job{i}
+		}
 	}
 	close(jobs)
 	wg.Wait()
 	return res
+}
+
+func pcKey(as []*Term) string {
+	var sb strings.Builder
+	for _, a := range as {
+		fmt.Fprintf(&sb, "%d,", a.ID)
+	}
+	return sb.String()
+}
+
+// syntacticallyTrue: the goal (or each conjunct / some disjunct of it) occurs among the assumptions.
+func syntacticallyTrue(o *Obligation) bool {
+	if o.Goal == nil {
+		return false
+	}
+	set := map[*Term]bool{}
+	for _, a := range o.Assume {
+		if a.Op == "and" {
+			for _, x := range a.Args {
+				set[x] = true
+			}
+		}
+		set[a] = true
+	}
+	var holds func(g *Term) bool
+	holds = func(g *Term) bool {
+		if g == True || set[g] {
+			return true
+		}
+		switch g.Op {
+		case "and":
+			for _, x := range g.Args {
+				if !holds(x) {
+					return false
+				}
+			}
+			return true
+		case "or":
+			for _, x := range g.Args {
+				if holds(x) {
+					return true
+				}
+			}
+		}
+		return false
+	}
+	return holds(o.Goal)
 }
 
 func solveOne(o *Obligation, timeoutS, seed int, prelude string, mu *sync.Mutex, cache map[string]*Result) *Result {
@@ -126,9 +229,65 @@ func solveOne(o *Obligation, timeoutS, seed int, prelude string, mu *sync.Mutex,
 		return &Result{Obl: o, Status: "trivial", Solver: "syntactic"}
 	}
 	sc := &Script{Prelude: prelude}
+	// stage A: quantifier-free part of the assumptions only (dropping assumptions is sound for
+	// refutation queries; for covers it checks the ground part of the path condition)
+	var ground []*Term
+	dropped := 0
+	qmemo := map[*Term]bool{}
+	for _, a := range o.Assume {
+		if hasQuant(a, qmemo) {
+			dropped++
+		} else {
+			ground = append(ground, a)
+		}
+	}
+	gq := !o.Cover && hasQuant(o.Goal, qmemo)
+	if dropped > 0 || gq {
+		mu.Lock()
+		qf, g, ninst, ok := Instantiate(o.Assume, o.Goal, o.Cover)
+		var gs string
+		if ok {
+			ga := &Script{Prelude: prelude, Asserts: qf}
+			if !o.Cover {
+				ga.Asserts = append(append([]*Term(nil), qf...), negateSplit(g)...)
+			}
+			if os.Getenv("VC_NONORM") == "" {
+				ga.Asserts = NormalizeQuery(ga.Asserts)
+			}
+			gs = ga.Render("ALL", false)
+		}
+		mu.Unlock()
+		if ok {
+			tag := fmt.Sprintf(" (quantifier-free: %d instances)", ninst)
+			qt := min(timeoutS, 15)
+			if o.Name == "combined" {
+				qt = min(timeoutS, 5)
+			}
+			st, out, secs := runSolver(context.Background(), solvers[0], gs, qt)
+			if o.Name == "combined" && st != "unsat" {
+				return &Result{Obl: o, Status: "unknown", Solver: "combined attempt abandoned", Seconds: secs}
+			}
+			if d := os.Getenv("VCDUMP"); d != "" && secs > 2 {
+				os.MkdirAll(d, 0o755)
+				os.WriteFile(fmt.Sprintf("%s/qf-%s-%d.smt2", d, sanitize(o.Name), len(gs)), []byte(gs), 0o644)
+			}
+			if st == "unsat" && !o.Cover {
+				return &Result{Obl: o, Status: "unsat", Solver: solvers[0].name + tag, Seconds: secs, Output: out, Size: len(gs)}
+			}
+			if o.Cover && st == "sat" {
+				return &Result{Obl: o, Status: "sat", Solver: solvers[0].name + tag, Seconds: secs, Output: out, Size: len(gs)}
+			}
+		}
+	}
+	_ = ground
+	if o.Name == "combined" && (dropped > 0 || gq) {
+		return &Result{Obl: o, Status: "unknown", Solver: "combined attempt abandoned"}
+	}
 	sc.Asserts = append(sc.Asserts, o.Assume...)
 	if !o.Cover {
+		mu.Lock()
 		sc.Asserts = append(sc.Asserts, Not(o.Goal))
+		mu.Unlock()
 	}
 	seen := map[string]bool{}
 	for _, v := range o.Vars {
@@ -237,4 +396,21 @@ func SortedModel(m map[string]string) []string {
 		out = append(out, k+" = "+m[k])
 	}
 	return out
+}
+
+func hasQuant(t *Term, memo map[*Term]bool) bool {
+	if v, ok := memo[t]; ok {
+		return v
+	}
+	r := t.Op == "forall" || t.Op == "exists"
+	if !r {
+		for _, a := range t.Args {
+			if hasQuant(a, memo) {
+				r = true
+				break
+			}
+		}
+	}
+	memo[t] = r
+	return r
 }
